@@ -309,6 +309,24 @@ theorem exec_toCounter (v : Rv) (hv : RvOK v) (vars : List (LoopVar × Val)) (ht
 theorem _root_.Bardolph.VmSteps.CodeAt.cast {img : Image} {p p' : Nat} {c : List Instr} (h : CodeAt img p c)
     (e : p = p') : CodeAt img p' c := e ▸ h
 
+
+/-- a value position (with calls) evaluated into a hidden variable of the innermost loop -/
+theorem rv_toLoopVar {f : Nat} (ihRv : RvToGoal V img K f) (v : Rv) (hv : RvC V v) (l : LoopVar)
+    (vars : List (LoopVar × Val)) (ht : Nat) {σ' : S} {x : Val}
+    (h : Sim K ⟨.loop vars ht :: fr, ev⟩ σ s) (hpc : s.pc = (pc : Int))
+    (hc : CodeAt img pc (genRv v (.to (.loopVar l)))) (hev : evalRv f v σ = .ok (x, σ')) :
+    Exec img s (At K (pc + (genRv v (.to (.loopVar l))).length) ⟨.loop (putVar vars l x) ht :: fr, ev⟩ [] σ') := by
+  have hput : ∀ s0, Sim K ⟨.loop vars ht :: fr, ev⟩ σ' s0 → s0.put (.loopVar l) x =
+      { s0 with stack := (.loop (putVar vars l x) ht :: fr) ++ baseOf K σ'.locals } := by
+    intro s0 h0
+    simp only [State.put]
+    exact putLoopVar_top (fr := fr ++ baseOf K σ'.locals) vars ht h0.stack _ _
+  refine (ihRv v hv (.loopVar l) (by simp) σ σ' x s pc _ h hpc hc hev
+    (fun s0 h0 => by rw [hput s0 h0]; exact h0.running)).mono fun t ⟨s0, h0, ht'⟩ => ?_
+  subst ht'
+  rw [hput s0 h0]
+  exact ⟨rfl, (h0.setStack (loopsOnly_cons _ _ h0.loops.cons.2) (h0.evok.retop _)).setPc _⟩
+
 /-! ## hidden loop variables: the records of `Proofs/Loops.lean` -/
 
 theorem getVar_eq : @getVar = @Loops.getLV := rfl
